@@ -294,8 +294,13 @@ def csv_faults(ctx, base):
                             cid.read("<c10>", [list(r) for r in base.rows])
                             for _ in cutplace.rows(cid, path, on_error="continue"):
                                 pass
-                    except (errors.DataError, errors.InterfaceError):
+                    except errors.InterfaceError:
                         pass
+                    except errors.DataError as error:
+                        if loader == "cid":
+                            # a problem in the CID is an interface error; data errors are for problems in the data
+                            ctx.violation("C10:cid-problem-reported-as-data-error:%s" % type(error).__name__, case,
+                                          "text in a CID file that the csv layer refuses was reported as an error in the data", expected="InterfaceError", observed=error)
                     except Exception as error:
                         ctx.violation("C10:escape:csv-fault:%s:%s" % (what, classify_escape(error)), case,
                                       "text the csv layer refuses ended in an internal error", expected="DataError / InterfaceError or success", observed=error)
